@@ -289,6 +289,13 @@ var cropTable = []CropInfo{
 	{"WRA", true, 230, 255, 190, 215, false, nil},
 }
 
+// perennialTable: the shipped permanent crops as they appear in rotations under automatic management (sown in late
+// summer, cut not later than early summer of the next year; a following cut is the same crop sown again)
+var perennialTable = []CropInfo{
+	{"AA", true, 240, 275, 150, 200, true, nil},
+	{"GR", true, 235, 270, 145, 195, false, nil},
+}
+
 func cropInfo(code string) *CropInfo {
 	for i := range cropTable {
 		if cropTable[i].Code == code {
@@ -1514,6 +1521,15 @@ func genAuto(sc *Scenario, r *Rng) {
 	prevLatest := sc.Start
 	for len(sc.Rotation) < 12 {
 		ci := &cropTable[r.Intn(len(cropTable))]
+		if sc.Prop == "C16" {
+			// permanent crops take part in rotations too: 8 % of the entries, and a permanent crop is followed by itself (the
+			// next cut) in 60 % of the cases
+			if n := len(sc.Rotation); n > 1 && isPerennial(sc.Rotation[n-1].Crop) && r.Bool(0.6) {
+				ci = perennialInfo(sc.Rotation[n-1].Crop)
+			} else if r.Bool(0.08) {
+				ci = &perennialTable[r.Intn(len(perennialTable))]
+			}
+		}
 		_, known := sc.AutoRows[ci.Code]
 		a := row(ci)
 		if !known && len(sc.Rotation) > 1 && r.Bool(0.3) {
@@ -1549,6 +1565,9 @@ func genAuto(sc *Scenario, r *Rng) {
 		}
 		harv := hlo.AddDays(r.Range(0, latest.Zeit()-hlo.Zeit()))
 		e := RotEntry{Crop: ci.Code, Sow: sow, Harvest: harv, Rex: pickI(r, []int{0, 100, 80, 50}), WinOpen: open, WinClose: closeD, LatestHarv: latest}
+		if isPerennial(ci.Code) {
+			e.Rex = pickI(r, []int{0, 100}) // a cut of a permanent crop: the stand stays (the model knows 0 and 100 only)
+		}
 		if a.OrgAmount > 0 && r.Bool(0.5) {
 			e.AutOrg = 1
 		}
@@ -1610,6 +1629,22 @@ func (sc *Scenario) rebuildAutoman() {
 			sc.Automan = append(sc.Automan, a.line(sc.DateFormat))
 		}
 	}
+	for _, ct := range perennialTable {
+		if a, ok := sc.AutoRows[ct.Code]; ok {
+			sc.Automan = append(sc.Automan, a.line(sc.DateFormat))
+		}
+	}
+}
+
+func isPerennial(code string) bool { return perennialInfo(code) != nil }
+
+func perennialInfo(code string) *CropInfo {
+	for i := range perennialTable {
+		if perennialTable[i].Code == code {
+			return &perennialTable[i]
+		}
+	}
+	return nil
 }
 
 func (a *AutoRow) line(dateFormat int) string {
